@@ -5,7 +5,7 @@ checks=${@:-C01 C02 C03 C04 C05 C06 C07 C08 C09 C10 C11 C12 C13 C14 C15 C16 C17 
 wt=/tmp/mut-$name
 git -C /repo worktree remove --force $wt >/dev/null 2>&1
 git -C /repo worktree add --detach $wt HEAD >/dev/null 2>&1 || exit 3
-git -C $wt apply "$patch" || { echo "patch failed"; git -C /repo worktree remove --force $wt; exit 3; }
+git -C $wt apply -3 "$patch" >/dev/null 2>&1 || git -C $wt apply "$patch" || { echo "patch failed"; git -C /repo worktree remove --force $wt; exit 3; }
 mkdir -p /tmp/neutral-logs
 printf '%s\n' $checks | xargs -P ${PAR:-4} -I{} sh -c "VERIF_REPO=$wt /verif/check {} > /tmp/neutral-logs/$name-{}.log 2>&1; echo \"$name {} rc=\$? \$(grep -c '^VIOLATION' /tmp/neutral-logs/$name-{}.log) violations\""
 git -C /repo worktree remove --force $wt
